@@ -53,7 +53,7 @@ from pulser.channels import DMM
 from pulser.devices import VirtualDevice
 
 PROP = "C18"
-TARGETS_MODEL = ["PulserModel.Switch", "Proofs.Switch"]
+TARGETS_MODEL = ["PulserModel.Switch", "Proofs.Switch", "Driver.Seq"]
 TARGETS = ["PulserModel.Generated.StrictParams", *TARGETS_MODEL, "Properties.C18"]
 N_SEQ = {"quick": 600, "thorough": 6000}
 VARIANTS = {"quick": 10, "thorough": 24}
@@ -65,6 +65,8 @@ TRUSTED_BASE = [
     "hand-written scheduler model lean/PulserModel/{Basic,Schedule,PhaseRef,Sequence}.lean corresponds to /repo "
     "(tied by the lock-step runs of C01/C02/C03/C09/C10, not by this check); lean/PulserModel/Switch.lean "
     "(matching search, replay) mirrors _switch_device.py by reading, pinned by the generated source-text tables",
+    "channel matching of the model (possibleMatches) compared with the implementation's choice on every "
+    "generated pair through lean/Driver/SwitchMain.lean; the replay of the model is not differentially tested",
     "harness/realcode.py adapters; the monitor of harness/props/C18.py (timeline / sample comparison)",
     "oracle fall times and sample summaries are parameters of the model (equal on both devices in timing_congr)",
 ]
@@ -594,6 +596,109 @@ def dmm_renamed(old, new) -> bool:
 
 
 # ======================================================================================
+# the model's channel matching (lean/Driver/SwitchMain.lean, line protocol)
+# ======================================================================================
+class SwitchModel:
+    """`pm_switch` if it has been built as an executable, else the same file interpreted."""
+
+    def __init__(self):
+        import subprocess
+
+        exe = common.DRIVER.parent / "pm_switch"
+        cmd = [str(exe)] if exe.exists() else ["lake", "env", "lean", "--run", "Driver/SwitchMain.lean"]
+        self.p = subprocess.Popen(cmd, cwd=common.LEAN_DIR, stdin=subprocess.PIPE, stdout=subprocess.PIPE,
+                                  text=True, bufsize=1)
+        self.lines = 0
+        if self.ask("check 1 0 | " + " | ".join(["0 gr 0 1 1 - 0 0 0 0 - - - - - - 0 - -"] * 2)) != "ok ok":
+            raise InfraError("the switch model driver does not answer")
+
+    def ask(self, line: str) -> str:
+        self.p.stdin.write(line + "\n")
+        self.p.stdin.flush()
+        self.lines += 1
+        r = self.p.stdout.readline()
+        if not r:
+            raise InfraError(f"switch model driver died on: {line[:200]}")
+        return r.rstrip("\n")
+
+    def close(self):
+        try:
+            self.p.stdin.close()
+            self.p.wait(timeout=5)
+        except Exception:  # noqa: BLE001
+            self.p.kill()
+
+
+MODEL: SwitchModel | None = None   # set by check()/replay(); None = monitor only
+MODEL_STATS = collections.Counter()
+_KEY_RE = re.compile(r"\(((?:\('[^']+', '[^']+'\),? ?)+)\): ")
+_PAIR_RE = re.compile(r"\('([^']+)', '([^']+)'\)")
+
+
+def _new_id(nd: Dev, channel_id: str) -> str:
+    if channel_id in nd.chan_ids:
+        return f"c{nd.chan_ids.index(channel_id)}"
+    return "d" + channel_id.split("_")[1]      # dmm_<j> or the name dmm_<j>_<k> of a declared DMM channel
+
+
+def model_matching(rs: RealSeq, nd: Dev, strict: bool):
+    """The candidate assignments of the model, in the order they are tried -> (count, listed)."""
+    seq = rs.seq
+    active = set()
+    for c in list(seq._calls[1:]) + list(seq._to_build_calls):
+        if c.name == "enable_eom_mode":
+            active.add(c.kwargs.get("channel", c.args[0] if c.args else None))
+    olds = " ; ".join(rs.dev.cfg_wire(sch.channel_obj, isinstance(sch.channel_obj, DMM)) + f" {int(n in active)}"
+                      for n, sch in seq._schedule.items())
+    chans = " ; ".join(nd.cfg_wire(o, False) for o in nd.chan_objs)
+    dmms = " ; ".join(nd.cfg_wire(o, True) for o in nd.dmm_objs)
+    r = MODEL.ask(f"match {int(strict)} {int(bool(nd.device.reusable_channels))} | {olds} | {chans} | {dmms}")
+    if not r.startswith("ok "):
+        raise InfraError(f"switch model driver: {r}")
+    _, n, lst = r.split(" ", 2)
+    inner = lst[1:-1]
+    listed = [] if not inner else [x.strip("[]").split(",") if x.strip("[]") else []
+                                   for x in inner.replace("],[", "]|[").split("|")]
+    return int(n), listed
+
+
+def compare_matching(rs: RealSeq, nd: Dev, strict: bool, new, exc) -> str | None:
+    """Real `switch_device` against the model's candidate list -> description of a disagreement."""
+    n, listed = model_matching(rs, nd, strict)
+    complete = n == len(listed)
+    if exc is None:
+        MODEL_STATS["returned"] += 1
+        chosen = [_new_id(nd, sch.channel_id) for sch in new._schedule.values()]
+        if n == 0:
+            return f"the implementation chose {chosen}, the model finds no matching"
+        if chosen in listed:
+            MODEL_STATS["chosen-is-first" if listed[0] == chosen else "chosen-is-later"] += 1
+            return None
+        return None if not complete else f"the implementation chose {chosen}, not among the model's candidates {listed}"
+    msg = str(exc.args[0]) if exc.args else ""
+    if msg.startswith("Strict device match failed") or "incompatible" in msg:
+        MODEL_STATS["device-level-raise"] += 1
+        return None
+    # (raise_error_non_matching_channel loses its message when a later declared channel overwrites and
+    # then clears the strict message of an earlier one: an empty TypeError is the same verdict)
+    if msg.startswith("No match for channel") or (isinstance(exc, TypeError) and msg == ""):
+        MODEL_STATS["no-match" if msg else "no-match-empty-message"] += 1
+        return None if n == 0 else f"the implementation finds no matching ({msg[:80]}), the model finds {n}: {listed[:3]}"
+    if n == 0:
+        return f"the model finds no matching, the implementation tried some ({type(exc).__name__}: {msg[:80]})"
+    if msg.startswith("No matching found between declared channels") and complete:
+        MODEL_STATS["all-failed"] += 1
+        tested = []
+        for m in _KEY_RE.finditer(msg):
+            tested.append([_new_id(nd, b) for _, b in _PAIR_RE.findall(m.group(1))])
+        if tested and tested != listed:
+            return f"matchings tried by the implementation {tested} differ from the model's {listed}"
+        return None
+    MODEL_STATS["replay-raise"] += 1
+    return None
+
+
+# ======================================================================================
 # one case
 # ======================================================================================
 class Result:
@@ -639,7 +744,15 @@ def check_device_switch(rs: RealSeq, new_spec: dict, strict: bool, edits: list, 
     except Exception as e:  # noqa: BLE001   (raising is always allowed by the property)
         res.status = f"raise:{type(e).__name__}"
         res.detail = str(e)[:200]
+        if MODEL is not None:
+            d = compare_matching(rs, nd, strict, None, e)
+            if d:
+                res.fails.append(F("model-matching", d, strict=strict))
         return res
+    if MODEL is not None and not same_device:
+        d = compare_matching(rs, nd, strict, new, None)
+        if d:
+            res.fails.append(F("model-matching", d, strict=strict))
     res.status = "ok"
     res.nontrivial = not same_device
     # the parameter difference that matters is the one between each declared channel's old and new
@@ -857,6 +970,8 @@ def shrink(case: dict, sig: tuple) -> dict:
             return False
 
     cur = copy.deepcopy(case)
+    if sig[0] != "model-values":
+        cur.pop("expect", None)    # (the numbers of a hand-written case do not survive shrinking)
     cur["ops"] = _ddmin(cur["ops"], lambda ops: fails(dict(cur, ops=ops)), 250)
     if cur.get("kind", "device") == "device":
         cur["edits"] = _ddmin(cur["edits"], lambda ed: fails(dict(cur, edits=ed)), 60)
@@ -1101,6 +1216,9 @@ def check(tier: str, seed: int) -> int:
         thms, axioms, discharged = common.property_theorems(PROP), {}, 0
     missing = expected_missing()
 
+    global MODEL
+    MODEL_STATS.clear()
+    MODEL = SwitchModel()
     rng = random.Random(f"{PROP}-{seed}")
     findings = all_findings()
     n_seq = N_SEQ[tier]
@@ -1153,6 +1271,12 @@ def check(tier: str, seed: int) -> int:
             return
         seen_keys.add(sig)
         seen_keys.add(pre_key)
+        if ff.clause == "model-matching":   # model and implementation disagree, no property failure
+            violations.append(dict(property=PROP, origin="correspondence", clause=ff.clause, key=key,
+                                   broken="lean/PulserModel/Switch.lean (possibleMatches / checkChannelsMatch) vs "
+                                          "/repo switch_device disagree on the channel matching: " + ff.msg,
+                                   message=ff.msg, no_failing_input_found=True, **small))
+            return
         violations.append(dict(property=PROP, origin="monitor", clause=ff.clause, key=key, message=ff.msg, **small))
 
     def account(case: dict, res: Result, origin: str):
@@ -1271,12 +1395,15 @@ def check(tier: str, seed: int) -> int:
             declared_channels={str(k): v for k, v in sorted(hist["nchan"].items())},
             op_histogram=dict(hist["opkinds"]), fail_clauses=dict(hist["fail_clauses"]),
             unsampleable_originals=dict(hist["unsampleable"]),
+            model_requests=MODEL.lines, model_matching=dict(MODEL_STATS),
             known_findings_hit=dict(known_hits), known_finding_replays=known_replays,
             uncovered_clauses=UNCOVERED, repo_fingerprint=common.repo_fingerprint(),
         ),
         assumptions=TRUSTED_BASE, wall_s=timer.s(), violations=len(violations),
     )
     write_evidence(PROP, ev)
+    MODEL.close()
+    MODEL = None
     for kf in findings:
         if kf.get("property") == PROP and kf.get("status") == "known":
             n = known_hits.get(kf["id"], 0)
@@ -1314,6 +1441,11 @@ def replay(path: str) -> int:
         return 1
     case = {k: item[k] for k in ("kind", "device", "ops", "edits", "strict", "mode", "expect") if k in item}
     case.setdefault("kind", "device")
+    global MODEL
+    ok, out = common.lake_build(TARGETS_MODEL)
+    if not ok:
+        raise InfraError("lake build failed:\n" + out[-2000:])
+    MODEL = SwitchModel()
     if "edits" in case:
         case["edits"] = norm_edits(case["edits"])
     res = run_case(case)
